@@ -174,6 +174,10 @@ type vf25Op struct {
 	// before the write of this op; 2 = after TimeoutCut bytes of the first record of this op's write have arrived
 	TimeoutRead int
 	TimeoutCut  int
+	// Ticket > 0 (with KeyUpdate set, server side, TLS 1.3): instead of a KeyUpdate the server sends a NewSessionTicket
+	// in this variant: 1 no extensions, 2 an unknown extension with a body, 3 early_data plus an empty unknown one,
+	// 4 a GREASE extension with a body (RFC 8446 4.6.1: clients MUST ignore unrecognised extensions)
+	Ticket int
 }
 
 type vf25Fault struct {
@@ -212,7 +216,9 @@ func (c *vf25Case) opsString() string {
 		if op.Client {
 			side = "C"
 		}
-		if op.KeyUpdate {
+		if op.KeyUpdate && op.Ticket > 0 && !op.Client {
+			fmt.Fprintf(&sb, "S:NST(variant %d) ", op.Ticket)
+		} else if op.KeyUpdate {
 			fmt.Fprintf(&sb, "%s:KU(%v) ", side, op.Request)
 		} else if op.TimeoutRead != 0 {
 			fmt.Fprintf(&sb, "%s:%d(read-timeout:%d/%d) ", side, op.Size, op.TimeoutRead, op.TimeoutCut)
@@ -256,6 +262,30 @@ type vf25Dir struct {
 	origAfter   [][]byte
 	wireAfter   []byte
 	intactAfter int
+}
+
+func vf25Ticket(c *Conn, variant int, seed uint64) error {
+	c.out.Lock()
+	defer c.out.Unlock()
+	body := []byte{0, 0, 0x0e, 0x10, byte(seed >> 24), byte(seed >> 16), byte(seed >> 8), byte(seed), 1, byte(variant)}
+	label := make([]byte, 24)
+	vfNewDetRand(seed, "c25-nst-label").Read(label)
+	body = append(body, 0, byte(len(label)))
+	body = append(body, label...)
+	var exts []byte
+	switch variant {
+	case 2:
+		exts = []byte{0xfa, 0x01, 0, 1, 0x42}
+	case 3:
+		exts = []byte{0, 42, 0, 4, 0, 0, 0, 0, 0xfa, 0x02, 0, 0}
+	case 4:
+		exts = []byte{0x1a, 0x1a, 0, 5, 1, 2, 3, 4, 5}
+	}
+	body = append(body, byte(len(exts)>>8), byte(len(exts)))
+	body = append(body, exts...)
+	msg := append([]byte{typeNewSessionTicket, 0, byte(len(body) >> 8), byte(len(body))}, body...)
+	_, err := c.writeRecordLocked(recordTypeHandshake, msg)
+	return err
 }
 
 func vf25KeyUpdate(c *Conn, request bool) error {
@@ -507,6 +537,13 @@ func vf25Run(c *vf25Case) (class string, viol string, info string) {
 		}
 		return "setup-failed", msg, ""
 	}
+	// a server only sends tickets to a client that announced psk_key_exchange_modes
+	nstOK := false
+	if hs := vfClientHellosOnWire(p.CP.Written()); len(hs) > 0 {
+		if h := vfParseClientHello(hs[len(hs)-1]); h != nil && h.Ext(45) != nil {
+			nstOK = true
+		}
+	}
 	cs := p.Cli.ConnectionState()
 	if cs.Version != c.Vers || (!c.Suite.t13 && cs.CipherSuite != c.Suite.id) {
 		return "setup-failed", fmt.Sprintf("negotiated %#04x/%#04x", cs.CipherSuite, cs.Version), ""
@@ -574,7 +611,14 @@ func vf25Run(c *vf25Case) (class string, viol string, info string) {
 			if c.Vers != VersionTLS13 {
 				continue
 			}
-			if err := vf25KeyUpdate(d.wc, op.Request); err != nil {
+			if op.Ticket > 0 && !op.Client {
+				if !nstOK {
+					continue
+				}
+				if err := vf25Ticket(d.wc, op.Ticket, c.Seed+uint64(i)); err != nil {
+					return "error", fmt.Sprintf("op %d: writing a NewSessionTicket on %s failed: %v", i, d.name, err), ""
+				}
+			} else if err := vf25KeyUpdate(d.wc, op.Request); err != nil {
 				return "error", fmt.Sprintf("op %d: key update on %s failed: %v", i, d.name, err), ""
 			}
 		} else {
@@ -730,6 +774,9 @@ func vf25GenCase(rt *rapid.T) *vf25Case {
 		if c.Vers == VersionTLS13 && rapid.IntRange(0, 3).Draw(rt, "ku") == 0 {
 			op.KeyUpdate = true
 			op.Request = rapid.Bool().Draw(rt, "kureq")
+			if !op.Client && rapid.IntRange(0, 2).Draw(rt, "ticket_instead") == 0 {
+				op.Ticket = rapid.IntRange(1, 4).Draw(rt, "ticket_variant")
+			}
 		} else {
 			switch rapid.IntRange(0, 3).Draw(rt, "sizekind") {
 			case 0:
@@ -795,6 +842,11 @@ func vf25Judge(st *vfStats, t vfFataler, c *vf25Case) {
 	if hasKU {
 		st.Class("with-keyupdate")
 	}
+	for _, op := range c.Ops {
+		if op.Ticket > 0 && !op.Client && c.Vers == VersionTLS13 {
+			st.Class(fmt.Sprintf("with-post-handshake-ticket(variant %d)", op.Ticket))
+		}
+	}
 	if big {
 		st.Class("with-record-boundary-size")
 	}
@@ -819,7 +871,7 @@ func TestVerifC25Random(t *testing.T) {
 func TestVerifC25Sweep(t *testing.T) {
 	st := vfNewStats(t, "C25")
 	script := []vf25Op{{Client: true, Size: 1}, {Client: false, Size: 1<<14 + 1}, {Client: true, Size: 0}, {Client: true, KeyUpdate: true, Request: true},
-		{Client: true, Size: 1 << 15}, {Client: false, KeyUpdate: true}, {Client: false, Size: 1<<14 - 1}, {Client: true, Size: 1 << 14}, {Client: false, Size: 2}}
+		{Client: true, Size: 1 << 15}, {Client: false, KeyUpdate: true}, {Client: false, KeyUpdate: true, Ticket: 2}, {Client: false, KeyUpdate: true, Ticket: 3}, {Client: false, Size: 1<<14 - 1}, {Client: true, Size: 1 << 14}, {Client: false, Size: 2}}
 	faults := []vf25Fault{{Kind: "none"}, {Kind: "flip-body", C2S: false, K: 1, PosSel: 1, Mask: 0x01}, {Kind: "truncate", C2S: true, K: 2, PosSel: 2},
 		{Kind: "flip-body", C2S: true, K: 0, PosSel: 0, Mask: 0x80}}
 	for si, s := range vf25Suites {
